@@ -763,6 +763,7 @@ package redis
 
 //@ func newUpstream
 //@   prop C19
+//@   requires @hosts-present-one-per-address (forall k int :: 0 <= k && k < len(hosts) ==> hosts[k] != nil) && forall a int, b int :: 0 <= a && a < b && b < len(hosts) ==> hosts[a].Addr != hosts[b].Addr
 //@   callpre NewCollector @hot-key-capacity-at-least-one arg0 >= 1
 
 //@ func (*upstream).HotKeys
